@@ -184,9 +184,9 @@ inductive StepRel (T : Table) (s s' : MState) : Prop
       (hdrop : s.rest.drop (skipLen s.rest) = c0 :: tl)
       (hel : eligible T ((markLc (s.rest.take (skipLen s.rest))).reverse ++ s.pre) c0 (lexTok (c0 :: tl)).kind
               (trans s.st (lexTok (c0 :: tl)).kind).sub = none)
-      (hpre : s'.pre = (tl.take ((lexTok (c0 :: tl)).len - 1)).reverse ++ c0 ::
+      (hpre : s'.pre = (tl.take (spanLen s c0 tl)).reverse ++ c0 ::
                 ((markLc (s.rest.take (skipLen s.rest))).reverse ++ s.pre))
-      (hrest : s'.rest = tl.drop ((lexTok (c0 :: tl)).len - 1))
+      (hrest : s'.rest = tl.drop (spanLen s c0 tl))
 
 theorem step_rel {T : Table} {s s' : MState} (h : step T s = some s') : StepRel T s s' := by
   unfold step at h
@@ -259,7 +259,7 @@ theorem mu_step {T : Table} {s s' : MState} (hi : Inv T s) (h : step T s = some 
   | take c0 tl hdrop hel hpre hrest =>
     have h1 := mu_take_drop T s.rest (skipLen s.rest)
     rw [hdrop] at h1
-    have h2 := mu_take_drop T tl ((lexTok (c0 :: tl)).len - 1)
+    have h2 := mu_take_drop T tl (spanLen s c0 tl)
     have h3 := weight_pos T c0
     rw [hrest]
     simp only [mu] at h1
